@@ -186,7 +186,7 @@ func arcBranch(m canvas.Matrix, rx, ry, phi float64) string {
 	return strconv.Itoa(br) + sw
 }
 
-// nearDoubleRoot: cause predicate of the NaN-radii defect. The characteristic polynomial of the
+// negDiscriminant: branch predicate of the repaired NaN-radii defect (C07-arc-transform-nan-radii). The characteristic polynomial of the
 // (symmetric) ellipse equation has discriminant (q00-q11)^2 + 4 q01 q10 >= 0, but
 // solveQuadraticFormula evaluates it as b*b - 4*a*c, which rounding makes negative when the two
 // eigenvalues nearly coincide although the off-diagonal entries are above Epsilon.
@@ -309,7 +309,9 @@ func arcCase(c *hc.Ctx, a arcIn, m canvas.Matrix, mcl string, sample bool) {
 		// (b) verdict of the exact specification on what the real code returned
 		suffix := ""
 		if negDiscriminant(m, a.rx, a.ry, a.phi) {
-			suffix = " +neg-discriminant"
+			// discriminant rounded below zero: since 2c3bd2a Eigen answers with the double eigenvalue
+			// (regression class: NaN radii here are a VIOLATION arc-image:nan-radii)
+			c.Count("arc:eigen-double-eigenvalue-rescued")
 		}
 		v := "ARCV " + mhex(m) + " " + hc.Hs(a.rx, a.ry, math.Cos(a.phi), math.Sin(a.phi)) + " " + hc.B(a.large) + " " + hc.B(a.sweep) + " " + hc.Hs(a.ex, a.ey) +
 			" " + hc.Hs(rx2, ry2, math.Cos(phi2), math.Sin(phi2)) + " " + hc.B(large2) + " " + hc.B(sweep2) + " " + hc.Hs(ex2, ey2) + " " + hc.H(2e-5)
@@ -385,33 +387,7 @@ func c07paths(c *hc.Ctx) {
 			continue
 		}
 		o := q.Data()
-		var out []string
-		ok := len(o) == len(d)
-		for i := 0; ok && i < len(o); {
-			switch o[i] {
-			case canvas.MoveToCmd:
-				out = append(out, "M", hc.Hs(o[i+1:i+3]...))
-				i += 4
-			case canvas.LineToCmd:
-				out = append(out, "L", hc.Hs(o[i+1:i+3]...))
-				i += 4
-			case canvas.CloseCmd:
-				out = append(out, "Z", hc.Hs(o[i+1:i+3]...))
-				i += 4
-			case canvas.QuadToCmd:
-				out = append(out, "Q", hc.Hs(o[i+1:i+5]...))
-				i += 6
-			case canvas.CubeToCmd:
-				out = append(out, "C", hc.Hs(o[i+1:i+7]...))
-				i += 8
-			case canvas.ArcToCmd:
-				f := o[i+4]
-				out = append(out, "A", ellipseToks(o[i+1], o[i+2], o[i+3]), hc.B(f == 1 || f == 3), hc.B(f == 2 || f == 3), hc.Hs(o[i+5:i+7]...))
-				i += 8
-			default:
-				ok = false
-			}
-		}
+		out, ok := outToks(o, len(d))
 		if !ok {
 			c.Fail("structure", "Transform changed the command structure", map[string]any{"data": d, "m": marr(m), "out": o})
 			continue
@@ -427,6 +403,48 @@ func c07paths(c *hc.Ctx) {
 		c.Count(fmt.Sprintf("path:len:%d", (nseg+4)/5*5))
 		c.Evals++
 		c.Case("XF "+mhex(m)+" "+strings.Join(toks, " "), mode, strings.Join(out, " "))
+
+		// Path.Translate / Path.Scale: Transform of Identity.Translate / Identity.Scale applied to a COPY
+		// (43a429d): same model line with the L1 matrix, and the receiver must stay as it was
+		if it%3 == 0 {
+			x, y := c.GenCoord(), c.GenCoord()
+			name := "Translate"
+			mm := canvas.Identity.Translate(x, y)
+			if c.Bool() {
+				name = "Scale"
+				if x == 0 || y == 0 {
+					x, y = 2, -3
+				}
+				mm = canvas.Identity.Scale(x, y)
+			}
+			p0 := canvas.VerifC07PathFromData(d)
+			var r *canvas.Path
+			if msg := hc.Try(func() {
+				if name == "Translate" {
+					r = p0.Translate(x, y)
+				} else {
+					r = p0.Scale(x, y)
+				}
+			}); msg != "" {
+				c.Fail("panic", name+" panicked: "+msg, map[string]any{"data": d, "x": x, "y": y})
+				continue
+			}
+			c.Evals++
+			c.Count("path:" + name)
+			same := len(p0.Data()) == len(d)
+			for i := 0; same && i < len(d); i++ {
+				same = p0.Data()[i] == d[i] || (d[i] != d[i] && p0.Data()[i] != p0.Data()[i])
+			}
+			if !same || r == p0 {
+				c.Fail("in-place:"+name, "Path."+name+" modified its receiver (documented: returns a new path)", map[string]any{"data": d, "x": x, "y": y})
+			}
+			out2, ok2 := outToks(r.Data(), len(d))
+			if !ok2 {
+				c.Fail("structure", name+" changed the command structure", map[string]any{"data": d, "x": x, "y": y, "out": r.Data()})
+				continue
+			}
+			c.Case("XF "+mhex(mm)+" "+strings.Join(toks, " "), mode, strings.Join(out2, " "))
+		}
 	}
 }
 
@@ -455,6 +473,37 @@ func sqBranch(a, b, c float64) string {
 		return "two-roots-b-negative"
 	}
 	return "two-roots-b-nonnegative"
+}
+
+// outToks renders a transformed command array as protocol tokens (arcs direction-free, see ellipseToks)
+func outToks(o []float64, want int) (out []string, ok bool) {
+	ok = len(o) == want
+	for i := 0; ok && i < len(o); {
+		switch o[i] {
+		case canvas.MoveToCmd:
+			out = append(out, "M", hc.Hs(o[i+1:i+3]...))
+			i += 4
+		case canvas.LineToCmd:
+			out = append(out, "L", hc.Hs(o[i+1:i+3]...))
+			i += 4
+		case canvas.CloseCmd:
+			out = append(out, "Z", hc.Hs(o[i+1:i+3]...))
+			i += 4
+		case canvas.QuadToCmd:
+			out = append(out, "Q", hc.Hs(o[i+1:i+5]...))
+			i += 6
+		case canvas.CubeToCmd:
+			out = append(out, "C", hc.Hs(o[i+1:i+7]...))
+			i += 8
+		case canvas.ArcToCmd:
+			f := o[i+4]
+			out = append(out, "A", ellipseToks(o[i+1], o[i+2], o[i+3]), hc.B(f == 1 || f == 3), hc.B(f == 2 || f == 3), hc.Hs(o[i+5:i+7]...))
+			i += 8
+		default:
+			ok = false
+		}
+	}
+	return
 }
 
 // ---- Rotate, RotateAbout, solveQuadraticFormula, Eigen, Norm, Angle, angleNorm ----------------------
